@@ -61,6 +61,10 @@ fn token_space(n: usize) -> u64 {
     (0..=n as u32).map(|l| k.pow(l)).sum()
 }
 
+pub fn token_text_pub(idx: u64, n: usize) -> String {
+    token_text(idx, n)
+}
+
 fn token_text(mut idx: u64, n: usize) -> String {
     let k = TOKENS.len() as u64;
     let mut len = 0;
